@@ -293,6 +293,11 @@ class IntegrityChecker(object):
                 comp_i = 0
                 noco_i = 0
                 for key in h5:
+                    if isinstance(h5.get(key, getlink=True),
+                                  h5py.ExternalLink):
+                        # External data (might not even be available) are
+                        # dealt with in `check_external_links`.
+                        continue
                     obj = h5[key]
                     if isinstance(obj, h5py.Dataset):
                         if is_properly_compressed(obj):
@@ -599,6 +604,10 @@ class IntegrityChecker(object):
                         lign = [logname.endswith(n) for n in IGNORED_LOG_NAMES]
                         if sum(lign):
                             continue
+                        if isinstance(logs.get(logname, getlink=True),
+                                      h5py.ExternalLink):
+                            # reported by `check_external_links`
+                            continue
                         log = logs[logname]
                         for ii in range(len(log)):
                             if len(log[ii]) > LOG_MAX_LINE_LENGTH:
@@ -895,6 +904,9 @@ def hdf5_has_external(h5):
 
     """
     for key in h5:
+        if isinstance(h5.get(key, getlink=True), h5py.ExternalLink):
+            # External link; the target does not have to exist.
+            return True, f"{h5.name}/{key}".replace("//", "/")
         obj = h5[key]
         if (obj.file != h5.file  # not in same file
                 or (isinstance(obj, h5py.Dataset)
